@@ -145,7 +145,7 @@ pub fn run(args: &Args, rep: &mut Report) {
                 }
                 Ok::<(), ()>(())
             }).await };
-            tokio::time::timeout(std::time::Duration::from_secs(if multi { 60 } else { 3600 }), fut).await.is_ok()
+            crate::transport::leak_on_timeout(if multi { 60 } else { 3600 }, fut).await.is_some()
         });
         let evs = log.lock().unwrap().clone();
         rep.evaluations += 1;
